@@ -4,7 +4,8 @@
     [None] = connection closed.  For all boxes, all streams and EVERY segmentation. *)
 From Coq Require Import List Arith NArith ZArith Bool.
 From TwLib Require Import PyBytes Seg.
-From C30 Require Import Model Proofs Theorems.
+From TwLib Require Import CodecsText FramingText.
+From C30 Require Import Text Model ProofsText Proofs Theorems.
 Import ListNotations.
 
 Theorem amp_segmentation_invariant : forall cs s, chunks cs s ->
@@ -48,7 +49,10 @@ Print Assumptions empty_key_refuted.
 
 
 
-(** Integer, String, Boolean and ListOf (nested to any depth): whatever toString produces, fromString maps back to the value *)
+(** Integer, String, Boolean, Decimal, DateTime, Unicode and ListOf of these (nested to any depth): whatever toString
+    produces, fromString maps back to the value.  Float is NOT covered: repr()/float() are CPython oracles with no model
+    here; the check runs its round trip on the implementation (bit for bit).  Path is Unicode plus a FilePath wrapper
+    (not modelled), AmpList is a sequence of boxes ([boxes_roundtrip_any_split]). *)
 Theorem arg_roundtrip : forall t v b, enc t v = Some b -> dec t b = Some v.
 Proof. exact arg_roundtrip_proof. Qed.
 Print Assumptions arg_roundtrip.
@@ -58,6 +62,38 @@ Print Assumptions arg_roundtrip.
 Theorem integer_roundtrip : forall z, bytes_to_Z (Z_to_bytes z) = Some z.
 Proof. exact integer_roundtrip_proof. Qed.
 Print Assumptions integer_roundtrip.
+
+
+
+(** Decimal: every (sign, coefficient, exponent), every infinity and every NaN / sNaN with any payload reads back exactly
+    from its to-scientific-string text: no rounding, no exponent limit (this is what a context-dependent fromString breaks) *)
+Theorem decimal_roundtrip : forall d, text_to_dec (dec_to_text d) = Some d.
+Proof. exact decimal_roundtrip_proof. Qed.
+Print Assumptions decimal_roundtrip.
+
+
+
+(** DateTime: every valid date/time with microseconds and a UTC offset of whole minutes strictly inside one day *)
+Theorem datetime_roundtrip : forall t, dt_valid t = true -> text_to_dt (dt_to_text t) = Some t.
+Proof. exact datetime_roundtrip_proof. Qed.
+Print Assumptions datetime_roundtrip.
+
+
+
+(** Unicode: every string of scalar values survives UTF-8; a string with a lone surrogate is refused *)
+Theorem unicode_roundtrip : forall s,
+  (forallb scalar s = true -> exists b, uni_to_bytes s = Some b /\ utf8_decode b = Some s) /\
+  (forallb scalar s = false -> uni_to_bytes s = None).
+Proof. exact unicode_roundtrip_proof. Qed.
+Print Assumptions unicode_roundtrip.
+
+
+
+Example decimal_example :
+  dec_to_text (DFin true 12345 (-7)) = [45; 48; 46; 48; 48; 49; 50; 51; 52; 53]%N /\
+  dec_to_text (DFin false 12345 (-12)) = [49; 46; 50; 51; 52; 53; 69; 45; 56]%N /\
+  text_to_dec (dec_to_text (DFin false 1234567890123456789012345678901234567890 1000000)) = Some (DFin false 1234567890123456789012345678901234567890 1000000).
+Proof. exact decimal_example_proof. Qed.
 
 
 
